@@ -1323,7 +1323,7 @@ class W3Segment(base.Segment):
                 self._deleted = set()
             self._deleted.add(docnum)
         elif self._deleted is not None and docnum in self._deleted:
-            self._deleted.clear(docnum)
+            self._deleted.discard(docnum)
 
     def is_deleted(self, docnum):
         if self._deleted is None:
